@@ -1042,8 +1042,10 @@ def g2_size_facts_unconditional(ctx: Ctx):
     f = meths['_visit_return'][2]
     ex = execute(f, {}, {}, loop_passes=1)
     sets = [e for e in ex.events if e.kind == 'setattr' and e.name == 'self._returned' and e.args == (('k', True),)]
+    # on every path through the visitor (an arm that leaves early guards what follows it)
     ok = len(sets) >= 1 and any(not s.guards for s in sets)
-    ctx.check(ok, AS, f, f'{AS_CLS}._visit_return', 'a `return` makes what follows conditional', 'a `return` does not mark later statements as conditional')
+    ctx.check(ok, AS, f, f'{AS_CLS}._visit_return', 'every `return` -- of a scalar as of a list -- makes what follows conditional',
+              f'`_returned` is set only under {[[show(g)[:60] for g in s.guards] for s in sets]}: a `return` that takes the other path leaves later asserts / zips unconditional')
     f = meths['_branch'][2]
     t = norm(f, 2000)
     ctx.check('self._cond_depth += 1 try: yield finally: self._cond_depth -= 1' in t, AS, f, f'{AS_CLS}._branch', 'the conditional depth is restored on every exit', 'changed')
@@ -1136,8 +1138,10 @@ def x2_alias_routes(ctx: Ctx):
     p = ctx.fn(ALIAS, '_Builder._project')
     exp = execute(p, {}, {}, loop_passes=1)
     prets = [(show(e.args[0]), [show(g) for g in e.guards]) for e in exp.events if e.kind == 'return']
-    ok = ('self._part(self._region_for(e.value))', ['not(isinstance(self.types.by_expr.get(e.value), TupleType))']) in prets \
-        and ('self._part(self._region_for(e.value), e.index.val)', ['isinstance(e.index, Integer)']) in prets
+    def returned_under(value: str, guard: str) -> bool:
+        return any(v == value and guard in gs for v, gs in prets)
+    ok = returned_under('self._part(self._region_for(e.value))', 'not(isinstance(self.types.by_expr.get(e.value), TupleType))') \
+        and returned_under('self._part(self._region_for(e.value), e.index.val)', 'isinstance(e.index, Integer)')
     ctx.check(ok, ALIAS, p, '_Builder._project', 'xs[i]: the elements part of a list; field i of a tuple for a literal index', f'got {prets}')
     mg = {frozenset(show(a) for a in e.args[:2]) for e in exp.calls('self.regions.merge')}
     ok = any('self._part(self._region_for(e.value), 0)' in x and any('each(range(1, len(' in y for y in x) for x in mg)
@@ -1286,6 +1290,9 @@ MUTANTS = [
     Mutant('call-gets-caller-context', VC, "        # the callee produces the result, so the caller's context says nothing\n        return _TOP", "        return self._rounded(e, _TOP)", 'C13.X1'),
     Mutant('loop-target-assumed-finite', VC, "            self._bind(stmt, stmt.target, _TOP)", "            self._bind(stmt, stmt.target, _FINITE)", 'C13.X1'),
     # G2
+    Mutant('scalar-return-not-conditional', AS, "        ret_size = self._visit_expr(stmt.expr, ctx)\n        self._returned = True\n        if not isinstance(ret_size, ListSize):\n            return",
+           "        ret_size = self._visit_expr(stmt.expr, ctx)\n        if not isinstance(ret_size, ListSize):\n            return\n        self._returned = True", 'C13.G2',
+           'seeded change C13b: a `return` of a scalar leaves later asserts unconditional'),
     Mutant('return-not-conditional', AS, "        return self._cond_depth == 0 and not self._returned", "        return self._cond_depth == 0", 'C13.G2', 'finding F27 before its repair'),
     Mutant('boolop-tail-unconditional', AS, "            with self._branch():\n                tys += [self._visit_expr(arg, ctx) for arg in e.args[1:]]", "            if True:\n                tys += [self._visit_expr(arg, ctx) for arg in e.args[1:]]", 'C13.G2',
            'finding F28 before its repair'),
